@@ -478,6 +478,18 @@ class Fn:
             v = self.fresh()
             pre.append(f"let {v} ← PyT.unpackU32LE {c}")
             return v, "int"
+        if isinstance(e, ast.Subscript) and isinstance(e.value, ast.Call) and ast.unparse(e.value.func) in ("unpack", "struct.unpack") \
+                and len(e.value.args) == 2 and isinstance(e.value.args[0], ast.Constant) \
+                and e.value.args[0].value in self.spec.get("unpack", {}) \
+                and isinstance(e.slice, ast.Constant) and e.slice.value == 0:
+            # unpack(fmt, b)[0] for a format the entry names: the Lean reader given there (struct.error on a wrong length)
+            lean_fn, rett = self.spec["unpack"][e.value.args[0].value]
+            c, t = self.expr(e.value.args[1], env, pre)
+            if t != "bytes":
+                raise Unsupported("unpack(fmt, x) of " + str(t))
+            v = self.fresh()
+            pre.append(f"let {v} ← {lean_fn} {c}")
+            return v, rett
         if isinstance(e, ast.Subscript) and ast.unparse(e.value) in self.spec.get("tables", {}):
             # a class-level table of third-party objects (compiled regexes) looked up by key: the named Lean function
             lean_fn, kt, rett = self.spec["tables"][ast.unparse(e.value)]
@@ -1234,6 +1246,10 @@ class Fn:
                 name = attrs[ast.unparse(t.value)][0]      # d[k] = v on a dict carried as a state variable updates it
                 if name not in out:
                     out.append(name)
+            elif isinstance(t, ast.Attribute) and ast.unparse(t) in self.spec.get("opt_attrs", {}):
+                name = self.spec["opt_attrs"][ast.unparse(t)][0]      # obj.X = v for an attribute kept as an Optional variable
+                if name not in out:
+                    out.append(name)
         for s in stmts:
             for n in ast.walk(s):
                 if isinstance(n, ast.Assign):
@@ -1331,7 +1347,16 @@ class Fn:
                 if len(s.targets) != 1:
                     raise Unsupported("chained assignment")
                 target = s.targets[0]
-                if isinstance(s.value, ast.List) and not s.value.elts and isinstance(target, ast.Name) \
+                if isinstance(s.value, ast.Constant) and s.value.value is None and isinstance(target, ast.Name) \
+                        and target.id in self.spec.get("opt_vars", {}):
+                    t = ("opt", self.spec["opt_vars"][target.id])       # `x = None` for a variable that later holds a value
+                    code = f"(none : {lean_type(t)})"
+                elif isinstance(target, ast.Name) and target.id in self.spec.get("opt_vars", {}):
+                    code, t = self.expr(s.value, env, pre)
+                    if t != self.spec["opt_vars"][target.id]:
+                        raise Unsupported(f"{target.id} declared Optional[{self.spec['opt_vars'][target.id]}] is assigned a {t}")
+                    code, t = f"(some {code})", ("opt", t)
+                elif isinstance(s.value, ast.List) and not s.value.elts and isinstance(target, ast.Name) \
                         and isinstance(env.get(target.id), tuple) and env[target.id][0] == "list":
                     t = env[target.id]       # `x = []` for a list variable that already has an element type
                     code = f"([] : {lean_type(t)})"
@@ -1822,6 +1847,15 @@ class Fn:
         return fdef
 
     def translate(self, fdef: ast.FunctionDef) -> str:
+        if self.spec.get("class_defaults"):
+            # a class whose attributes the entry keeps as variables: their defaults are read from the live class
+            import importlib
+            cls_name, names = self.spec["class_defaults"]
+            klass = getattr(importlib.import_module(self.spec["module"]), cls_name)
+            live = [f.name for f in __import__("dataclasses").fields(klass)] if hasattr(klass, "__dataclass_fields__") else \
+                [k for k in vars(klass) if k.startswith("_") and k.endswith("_id")]
+            if live != names or any(getattr(klass(), n) is not None for n in names):
+                raise Unsupported(f"{cls_name}() no longer has exactly the attributes {names}, all None")
         if self.spec.get("token_class"):
             token_law(self.spec["module"])
             for what, law in self.spec.get("live_laws", ()):
@@ -1917,6 +1951,10 @@ class Fn:
 # ---------------------------------------------------------------------------------------------
 # what is translated
 # ---------------------------------------------------------------------------------------------
+# the fourteen ids of CellStorageFlags, in class order (compared with the live class when the entry is translated)
+CELL_ID_FIELDS = ["string", "rich", "cell_style", "text_style", "formula", "control", "formula_error", "suggest", "num_format",
+                  "currency_format", "date_format", "duration_format", "text_format", "bool_format"]
+
 # ---- C17: types of the loader entries (group `Load`) ----------------------------------------------------------------
 L_EXT = ("ext", ("raw", "Loader.Ext"))                 # the externals record the hand model quantifies over
 L_ST = ("st", ("var", "Loader.Store"))                 # the handler state (ObjectStore._objects / _file_store)
@@ -2184,6 +2222,22 @@ TARGETS = [
      "externs": {"snappy.compress": ("compress", ["bytes"], "bytes", False)}, "fuel": ["uncompressed.length + 1"],
      "assume": "translated from the joined archive bytes on (the parameter uncompressed); snappy.compress is the parameter "
                "compress; struct.pack('<I', n) is four little-endian bytes (struct.error outside 0 .. 2^32 - 1)"},
+    # ---- C04: the flags-driven field walk of the v5 cell record ------------------------------------------------------------
+    {"group": "CellRec", "module": "numbers_parser.cell", "qualname": "Cell._from_storage", "lean": "from_storage_fields",
+     "params": [("readD128", ("raw", "Bytes → PyM Bytes")), ("readDouble", ("raw", "Bytes → PyM Bytes")), ("buffer", "bytes")],
+     "ret": ("tuple", ["int"] + [("opt", "bytes")] * 3 + [("opt", "int")] * 14),
+     "opt_vars": {"d128": "bytes", "double": "bytes", "seconds": "bytes"},
+     "opt_attrs": {f"storage_flags._{n}_id": (f"{n}_id", "int") for n in CELL_ID_FIELDS},
+     "init": [(f"{n}_id", ("opt", "int"), "none") for n in CELL_ID_FIELDS],
+     "skip": ["storage_flags = CellStorageFlags()"],
+     "unpack": {"<i": ("unpackI32", "int"), "<d": ("readDouble", "bytes")},
+     "externs": {"_unpack_decimal128": ("readD128", ["bytes"], "bytes", True)},
+     "class_defaults": ("CellStorageFlags", [f"_{n}_id" for n in CELL_ID_FIELDS]),
+     "until": ("cell_type = buffer[1]", ["flags", "d128", "double", "seconds"] + [f"{n}_id" for n in CELL_ID_FIELDS]),
+     "assume": "the field walk (everything before `cell_type = buffer[1]`): a fresh CellStorageFlags() has every id None (the "
+               "variables <name>_id, compared with the live class at translation time); payload interpretation stays outside: "
+               "_unpack_decimal128(b) / unpack('<d', b)[0] are the parameters readD128 / readDouble (the payload bytes, or the "
+               "exception a short slice gives); unpack('<i', b)[0] is Py/Struct unpackI32"},
     # ---- C17: the exception flow of container loading (iwork.py, ObjectStore.__init__) ----------------------------------
     {"group": "Load", "module": "numbers_parser.iwork", "qualname": "IWork._open_zipfile", "lean": "open_zipfile", "flow": True,
      "params": [("filepath", L_ZIPSRC)], "pyparams": ["filepath"], "ret": L_NAT,
@@ -2310,7 +2364,8 @@ def find_def(module: str, qualname: str) -> ast.FunctionDef:
 
 
 GROUP_IMPORTS = {"A1": ["NumbersModel.Model.A1"], "Items": [], "NumFmt": [], "Addr": [], "DateFmt": [], "Duration": [], "Dec128": [], "Merge": [], "Edit": [], "Cache": [], "Tok": ["NumbersModel.Model.TokenizerSrc"],
-                 "Load": ["NumbersModel.Model.LoaderSrc"], "Iwa": ["NumbersModel.Model.IwaSrc"]}
+                 "Load": ["NumbersModel.Model.LoaderSrc"], "Iwa": ["NumbersModel.Model.IwaSrc"],
+                 "CellRec": ["NumbersModel.Model.CellRecordSrc"]}
 
 
 def generate(group: str) -> tuple[str, dict]:
